@@ -195,7 +195,7 @@ Section Norm.
                   into cfg' r
               end) empty_cfg fs ;;
       Ok (c, None)
-    | GCfg t ov => Ok (t, ov)
+    | GCfg t ov => Ok (t, None)     (* the embedded config gets a header of its own (fix F11): its stored name is its new place *)
     | GUnsupported _ => Err ETypeMismatch ""        (* raiseUnsupportedInputType *)
     end.
 
